@@ -5,6 +5,7 @@ FENCE_NOTE = ("Trusts: x86-64 Linux page protection and the fault error code (wr
               "and 20-40 line C models). Accesses inside mapped memory that is no arena slot are not observed.")
 
 ENGINES = [
+    {"name": "oom", "path": "harness/oom.c", "serves_properties": ["C20"], "kind_free_text": "allocation-failure enumerator (--wrap malloc/calloc/realloc/free) with live-block table"},
     {"name": "mbconv", "path": "harness/mbconv.c", "serves_properties": ["C15", "C01", "C02", "C03", "C04", "C05", "C08"], "kind_free_text": "multibyte/wide conversion driver with libc reference"},
     {"name": "misc", "path": "harness/misc.c", "serves_properties": ["C01", "C02", "C03", "C04", "C05", "C06", "C08", "C12"], "kind_free_text": "time / error-string / environment / line-input / file exports under the fence with libc references"},
     {"name": "fmtw", "path": "harness/fmtw.c", "serves_properties": ["C09"], "kind_free_text": "wide printf_s + narrow/wide scanf_s drivers with %n sentinels"},
@@ -108,6 +109,12 @@ META = {
              text="The six conversion exports are called on every short string over the four UTF-8 character widths and on invalid sequences at every position, with len/dmax below, at "
                   "and above the converted length, dest NULL, both locales; characters, count, *srcp, round trip, query-then-convert and state reuse are compared with libc.",
              note=FENCE_NOTE),
+ "C20": dict(technique="runtime monitoring with fault injection: link-time malloc/realloc/free interposition failing the k-th allocation of each call, live-block accounting",
+             engine="oom", category="fault_enumeration",
+             text="For every scenario that reaches an allocation site, each allocation position is failed in turn: the process must survive (the fence turns a dereference of the "
+                  "failed allocation into an attributed event), the call must report failure with dest cleared, and no block allocated during the call may be live at return "
+                  "(also checked without injection).",
+             note="Only allocation sites reached by the 20 scenarios are exercised; a floor requires at least 12 distinct sites to have been observed."),
  "C16": dict(technique="runtime monitoring: checking comparator + post-sort order/permutation scan + linear-search reference, array between guard pages, plain and ASan builds",
              engine="sortsearch",
              text="qsort_s on exact-fit arrays between PROT_NONE pages: result must be ordered and a permutation (multiset of whole elements), every comparator "
